@@ -83,7 +83,7 @@ func vkSigSection(r *vkRun, thorough bool) {
 	keys := vkSigKeys(thorough)
 	structural := vkStructMuts()
 	em := vkEMMuts()
-	quickFlipSets := map[string]bool{"a1": true, "mx2": true, "wild-a": true, "txt3": true, "ns2-apex": true, "soa": true, "evil-boundary": true, "aaaa-dup": true, "wild-deep": true, "esc-owner": true}
+	quickFlipSets := map[string]bool{"a1": true, "mx2": true, "wild-a": true, "txt3": true, "ns2-apex": true, "soa": true, "evil-boundary": true, "aaaa-dup": true, "wild-deep": true, "esc-owner": true, "wild-esc": true}
 	bases := 0
 	for ki, key := range keys {
 		for si := range vkRRsets {
